@@ -74,6 +74,8 @@ Ltac single_item Hwf feq mem :=
 Ltac lmi_item Hwf feq ref mem :=
   let si := fresh "si" in let sj := fresh "sj" in let Hi := fresh "Hi" in let Hj := fresh "Hj" in
   let Hd := fresh "Hd" in let He := fresh "He" in
+  (* an LMI statement guarded by `if N > 0` (Guarded (GNonEmpty l) (LMI l entry)): the guard is not needed *)
+  try (intros _);
   eapply (lmi_ok_ref _ _ _ _ _ ref);
   [ exact Hwf
   | intros si sj Hi Hj;
